@@ -21,19 +21,36 @@ THREAD_SPAWN = r"^std::thread::(spawn|Builder::spawn\w*)$"
 TASK_CALL = ("std::ops::FnMut::call_mut", "std::ops::FnOnce::call_once", "std::ops::Fn::call")
 
 
+TASK_DEQUE = r"^std::collections::VecDeque<std::boxed::Box<\(?dyn .*Fn"
+
+
 def find_pool(facts):
+    """-> ((shared adt, mutex field, condvar field, atomic counters, locked adt or None, deque path inside the mutex, locked counters), pool adt)"""
     sh = []
     for aid, a in sorted(facts.adts.items()):
         if a["kind"] != "Struct":
             continue
         fs = a["variants"][0]["fields"]
-        todo = [x["name"] for x in fs if re.match(r"^std::sync::Mutex<std::collections::VecDeque<std::boxed::Box<\(?dyn .*Fn", x["ty"])]
         cv = [x["name"] for x in fs if x["ty"] == "std::sync::Condvar"]
         ctr = [x["name"] for x in fs if x["ty"] in ("std::sync::atomic::AtomicUsize", "std::sync::atomic::Atomic<usize>")]
+        todo = []
+        for x in fs:
+            m = re.match(r"^std::sync::Mutex<(.*)>$", x["ty"])
+            if not m:
+                continue
+            inner = m.group(1)
+            if re.match(TASK_DEQUE, inner):
+                todo.append((x["name"], None, (), []))
+            elif inner in facts.adts and facts.adts[inner]["kind"] == "Struct":
+                # the queue kept together with other state under one lock
+                dq = shared.find_slot_paths(facts, inner, TASK_DEQUE)
+                if len(dq) == 1:
+                    locked = [y["name"] for y in facts.adts[inner]["variants"][0]["fields"] if y["ty"] == "usize"]
+                    todo.append((x["name"], inner, dq[0], locked))
         if len(todo) == 1 and len(cv) == 1:
-            sh.append((aid, todo[0], cv[0], ctr))
+            sh.append((aid, todo[0][0], cv[0], ctr, todo[0][1], todo[0][2], todo[0][3]))
     if len(sh) != 1:
-        raise CheckerError("pool rules: expected exactly one shared pool state (Mutex<VecDeque<Box<dyn FnMut>>> + Condvar), found %s" % [x[0] for x in sh])
+        raise CheckerError("pool rules: expected exactly one shared pool state (a Mutex around the queue of boxed tasks + a Condvar), found %s" % [x[0] for x in sh])
     sh = sh[0]
     tps = [aid for aid, a in sorted(facts.adts.items()) if a["kind"] == "Struct" and aid != sh[0] and any(sh[0] in x["ty"] for x in a["variants"][0]["fields"])]
     if len(tps) != 1:
@@ -57,7 +74,8 @@ def closures_spawned(f):
 class PoolModel:
     def __init__(self, facts):
         self.facts = facts
-        (self.sh, self.todo_field, self.cv_field, self.counters), self.tp = find_pool(facts)
+        (self.sh, self.todo_field, self.cv_field, self.atomics, self.locked_adt, self.dq_path, self.locked_counters), self.tp = find_pool(facts)
+        self.counters = list(self.atomics) + list(self.locked_counters)
         self.file = facts.adt(self.tp)["file"]
         self.methods = [f for k, f in sorted(facts.local_fns.items()) if f.rec.get("impl_self_adt") == self.tp and f.rec["def_kind"] == "AssocFn"]
         cands = []
@@ -125,6 +143,18 @@ class PoolModel:
                 decs.append((bb, c, "fetch_sub"))
             else:
                 others.append((bb, c, m.group(1)))
+        # counters kept under the queue's lock: `state.idle += 1` / `-= 1`
+        for bb, i, st in f.assigns():
+            fl = pl_fields(st["lhs"])
+            if not fl or fl[-1] not in self.locked_counters:
+                continue
+            step = self._step_of(f, st["rhs"], fl[-1])
+            if step == 1:
+                incs.append((bb, fl[-1], "+= 1"))
+            elif step == -1:
+                decs.append((bb, fl[-1], "-= 1"))
+            else:
+                others.append((bb, fl[-1], "assignment"))
         guards = self.guard_adts()
         for bb, t in f.drops():
             if t.get("adt") in guards and not t["pl"]["p"]:
@@ -133,6 +163,29 @@ class PoolModel:
                     decs.append((bb, c, "guard-drop"))
         self._counter_events[f.id + str(getattr(f, "is_inlined", False))] = (incs, decs, others)
         return incs, decs, others
+
+    def _step_of(self, f, rhs, fld):
+        """+1 / -1 when rhs is `<this counter> + 1` / `- 1` (checked or unchecked arithmetic), else None"""
+        o = None
+        if rhs["rv"] == "use":
+            o = f.origin(rhs["op"])
+        elif rhs["rv"] == "binop":
+            o = ("binop", rhs["op"], f.origin(rhs["a"]), f.origin(rhs["b"]))
+        while o and o[0] == "field" and o[2] == "0":
+            o = o[1]
+        if o and o[0] == "binop" and o[1] in ("Add", "AddWithOverflow", "AddUnchecked", "Sub", "SubWithOverflow", "SubUnchecked"):
+            if fld in origin_fields(o[2]) and o[3][0] == "const" and o[3][1] == 1:
+                return 1 if o[1].startswith("Add") else -1
+        return None
+
+    def reads_counter(self, f, o, fld):
+        """does the origin read counter `fld` (an atomic load of it, or the plain field under the lock)?"""
+        for x in origin_calls(o):
+            if re.search(ATOMIC_LOAD, x[1]) and any(self.counter_of(f, a) == fld for a in x[2]):
+                return True
+        if fld in self.locked_counters:
+            return any(y[0] == "field" and y[2] == fld for y in origin_walk(o))
+        return False
 
     def _bind_counters(self):
         w = self.w
@@ -188,7 +241,10 @@ def rule_counter_discipline(ctx, rule):
     incs, decs, others = P.counter_events(w)
     for i, (bb, c, how) in enumerate(incs):
         dd = {b for b, c2, h in decs if c2 == c}
-        r_ = w.reach([w.normal_target(bb)], blocked=dd, unwind=True)
+        # a counter that lives under the queue's lock is only ever stepped with the lock held: a panic at that point poisons the mutex and
+        # ends the pool, so only the normal ways out matter for it
+        unw = c not in P.locked_counters
+        r_ = w.reach([w.normal_target(bb)] if w.term(bb)["t"] == "call" else w.succs(bb, False), blocked=dd, unwind=unw)
         leaks = [x for x in r_ if w.term(x)["t"] in ("return", "resume")]
         again = bb in r_
         ok = bool(dd) and not leaks and not again
@@ -196,7 +252,7 @@ def rule_counter_discipline(ctx, rule):
         ctx.paths += 1
         ctx.ob(rule, "%s|%s|released-on-every-exit" % (P.worker_def, "idle-count" if c == P.idle_field else ("live-count" if c == P.live_field else c)),
                "a worker's registration in a counter is given back on every way out: normal exit, early return, unwinding (a manual increment/decrement pair that misses an early return leaks the count)",
-               ok, w.loc(bb), None if ok else ("path from the increment to an exit without the decrement: %s" % w.path([w.normal_target(bb)], leaks, blocked=dd, unwind=True) if leaks else "incremented again before the decrement"))
+               ok, w.loc(bb), None if ok else ("path from the increment to an exit without the decrement: %s" % w.path([w.normal_target(bb)] if w.term(bb)["t"] == "call" else w.succs(bb, False), leaks, blocked=dd, unwind=unw) if leaks else "incremented again before the decrement"))
     return n
 
 
@@ -235,9 +291,9 @@ def rule_dispatch(ctx, rule):
     reads_idle = reads_queue = claims = False
     for bb in deciding:
         o = f.origin(f.term(bb)["discr"])
+        if P.reads_counter(f, o, P.idle_field):
+            reads_idle = True
         for x in origin_calls(o):
-            if re.search(ATOMIC_LOAD, x[1]) and any(P.counter_of(f, a) == P.idle_field for a in x[2]):
-                reads_idle = True
             if re.search(r"VecDeque::<T(, A)?>::(len|is_empty)$", x[1]):
                 reads_queue = True
     # alternative accepted protocol: the enqueue branch claims a worker by decrementing the idle counter itself
@@ -246,6 +302,8 @@ def rule_dispatch(ctx, rule):
             t = f.term(b2)
             if t["t"] == "call" and re.search(r"fetch_sub$", call_name(t)) and P.counter_of(f, f.origin(t["args"][0])) == P.idle_field:
                 claims = True
+        if any(c == P.idle_field and b2 in f.reach([pb], unwind=False) for b2, c, h in P.counter_events(f)[1]):
+            claims = True
     ok = bool(deciding) and reads_idle and (reads_queue or claims)
     ctx.ob(rule, "%s|promise-accounting" % key,
            "the decision to queue a connection for an idle worker accounts for the connections already queued (each parked worker is promised to at most one task)",
@@ -256,7 +314,7 @@ def rule_dispatch(ctx, rule):
         ctx.ob(rule, "%s|enqueue-notifies" % key, "a queued task is announced to a parked worker", bool(nots) and not any(r in reach for r in f.returns()), f.loc(pb))
     # readers of the counters
     for fld in P.counters:
-        for g, bb, kind in facts.field_reads(P.sh, fld):
+        for g, bb, kind in facts.field_reads(P.locked_adt if fld in P.locked_counters else P.sh, fld):
             ctx.ob(rule, "%s.%s|reader|%s" % (P.sh, fld, g.id), "the worker counters are used only by the pool itself", g.file == P.file, g.loc(bb))
 
 
